@@ -1405,6 +1405,29 @@ fn gen_case(rng: &mut Rng, n: u64) -> CaseIn {
         reads.push(format!("?{}", rng.range(8, 14)));
         return CaseIn { kind, ssc: 0, phases: vec![Phase { ops, reads }] };
     }
+    if n == 11 || n == 12 {
+        // directed: a rollback restores a slot that is BOTH deleted and carries an overlay entry (delete, commit,
+        // update the same slot, commit, roll the update back); later slots are then updated without a commit, so
+        // the folds over the dirty state must step over the deleted slot's overlay entry and still serve the later
+        // slots from the overlay (fold_dirty and try_fold_dirty are separate code)
+        let kind = ["bytes", "zc"][(n - 11) as usize].to_string();
+        let total = rng.range(8, 30) as usize;
+        let i = rng.range(1, (total - 4) as u64) as usize;
+        let j = i + 1 + rng.below((total - i - 2) as u64) as usize;
+        let ops: Vec<String> = vec![format!("p:{total}"), "s".into(), format!("d:{i}"), "s".into(), format!("u:{i}"), "s".into(),
+                                    "r".into(), format!("u:{j}"), format!("u:{}", total - 1)];
+        let mut reads = vec!["x:0".to_string()];
+        for m in ["tf", "te"] {
+            reads.push(format!("d.{m}:0:{MAXU}:{}", total + 5));
+            reads.push(format!("d.{m}:{i}:{total}:{}", total + 5));
+            reads.push(format!("d.{m}:0:{total}:{}", total - 2));
+        }
+        reads.push(format!("d.fr:0:{MAXU}"));
+        reads.push(format!("d.fd:0:{MAXU}"));
+        reads.push(format!("d.c1:{j}"));
+        reads.push(format!("?{}", rng.range(8, 14)));
+        return CaseIn { kind, ssc: 3, phases: vec![Phase { ops, reads }] };
+    }
     let mut kind = rng.pick(&kinds).to_string();
     if let Some((k, _)) = forced { kind = k.to_string(); }
     let raw = matches!(kind.as_str(), "bytes" | "bytesn" | "zc");
